@@ -14,6 +14,12 @@ from . import seq as S
 from . import seq_detached
 
 
+def jcopy(v):
+    """the model keeps its own copy of mutable (Json) values: Pony wraps and tracks the object it is given"""
+    import copy
+    return copy.deepcopy(v) if isinstance(v, (dict, list)) else v
+
+
 class CarriedOn(Exception):
     """a session that went on after a caught database error has been rolled back"""
 
@@ -112,7 +118,7 @@ class Interp(seq_detached.DetachedMixin, S.SeqRun):
         def model(v):
             mo = v.objs[mid] = MObj(mid, e.name)
             mo.vals = self.default_vals(e)
-            mo.vals.update(kw)
+            mo.vals.update(jcopy(kw))
             if not e.auto_pk:
                 pkv = ()
                 for x in e.pk_attrs:
@@ -210,10 +216,10 @@ class Interp(seq_detached.DetachedMixin, S.SeqRun):
         def model(v):
             if none:
                 raise Refuse('None assigned to required %r' % at)
-            v.objs[mo.mid].vals[at.name] = val
+            v.objs[mo.mid].vals[at.name] = jcopy(val)
 
         newvals = dict(mo.vals)
-        newvals[at.name] = val
+        newvals[at.name] = jcopy(val)
         dup = self._would_duplicate(e, mo.mid, newvals) if not none else None
         st, res = self.modify(desc, pony, model, must_fail=dup, mids=[mo.mid])
         if st == 'ok':
@@ -269,7 +275,7 @@ class Interp(seq_detached.DetachedMixin, S.SeqRun):
             self.handle(mo.mid).set(**kw)
 
         def model(v):
-            v.objs[mo.mid].vals.update(kw)
+            v.objs[mo.mid].vals.update(jcopy(kw))
 
         dup = self._would_duplicate(e, mo.mid, dict(mo.vals, **kw))
         st, res = self.modify(desc, pony, model, must_fail=dup, mids=[mo.mid])
@@ -364,7 +370,7 @@ class Interp(seq_detached.DetachedMixin, S.SeqRun):
             # Entity.set applies plain values and references first, collections afterwards, each group in keyword order
             for k, at, val in parts:
                 if k == 'val':
-                    v.objs[mo.mid].vals[at.name] = val
+                    v.objs[mo.mid].vals[at.name] = jcopy(val)
             for k, at, val in parts:
                 if k == 'one':
                     v.set_to_one(mo.mid, at, val)
@@ -875,14 +881,14 @@ class Interp(seq_detached.DetachedMixin, S.SeqRun):
             self.probe('fail_probe_assignment')
             desc = 'set %s#%d.%s=%r' % (mo.ent, mo.mid, at.name, val)
             newvals = dict(mo.vals)
-            newvals[at.name] = val
+            newvals[at.name] = jcopy(val)
             e = self.schema.by_name[mo.ent]
             dup = self._would_duplicate(e, mo.mid, newvals) if val is not None else None
 
             def model(v):
                 if val is None:
                     raise Refuse('None assigned to required %r' % at)
-                v.objs[mo.mid].vals[at.name] = val
+                v.objs[mo.mid].vals[at.name] = jcopy(val)
             old_vals = dict(self.view.objs[mo.mid].vals)
             st = self.modify(desc, lambda: setattr(self.handle(mo.mid), at.name, val), model, must_fail=dup,
                              mids=[mo.mid])[0]
@@ -914,6 +920,52 @@ class Interp(seq_detached.DetachedMixin, S.SeqRun):
             if r.chance(0.5):
                 self.op_r_attr_of(o, eo.attrs[r.below(len(eo.attrs))])
         return st
+
+    def op_jedit(self, a, b, c):
+        """a change made in place inside a tracked Json value (value['k'] = n, value['l'].append(n), del value['k']):
+        it is a modification of the object like an assignment"""
+        cands = [o for o in self.live_sorted('Course')]
+        if not cands:
+            return None
+        mo = cands[a % len(cands)]
+        cur = mo.vals.get('meta')
+        # the value is read first (a read of an unloaded attribute queries, and a query flushes): what is judged
+        # as a modification is the change in place alone
+        h = self.handle_or_poison(mo.mid)
+        ok, got = self.read('r_attr Course#%d.meta' % mo.mid, lambda: h.meta)
+        if ok:
+            self.expect('r_attr Course#%d.meta' % mo.mid, got, cur)
+        k = b % 4
+        if not isinstance(cur, dict):
+            new = {'k': c % 5}
+            desc = 'jedit Course#%d.meta = %r' % (mo.mid, new)
+            pony = lambda: setattr(self.handle(mo.mid), 'meta', jcopy(new))
+        elif k == 0 or (k == 3 and 'k' not in cur):
+            new = jcopy(cur)
+            new['k'] = c % 5
+            desc = "jedit Course#%d.meta['k'] = %d" % (mo.mid, c % 5)
+            pony = lambda: self.handle(mo.mid).meta.__setitem__('k', c % 5)
+        elif k == 1 and isinstance(cur.get('l'), list):
+            new = jcopy(cur)
+            new['l'].append(c % 5)
+            desc = "jedit Course#%d.meta['l'].append(%d)" % (mo.mid, c % 5)
+            pony = lambda: self.handle(mo.mid).meta['l'].append(c % 5)
+        elif k == 3:
+            new = jcopy(cur)
+            del new['k']
+            desc = "jedit del Course#%d.meta['k']" % mo.mid
+            pony = lambda: self.handle(mo.mid).meta.__delitem__('k')
+        else:
+            new = jcopy(cur)
+            new['l'] = [c % 3]
+            desc = "jedit Course#%d.meta['l'] = [%d]" % (mo.mid, c % 3)
+            pony = lambda: self.handle(mo.mid).meta.__setitem__('l', [c % 3])
+        if new == cur:
+            return None
+
+        def model(v):
+            v.objs[mo.mid].vals['meta'] = jcopy(new)
+        return self.modify(desc, pony, model, mids=[mo.mid])[0]
 
     def op_partial(self, a, b, c):
         """A collection that is only partly in memory when something happens to it: fetch an owner, fetch ONE of
@@ -1069,7 +1121,7 @@ class Interp(seq_detached.DetachedMixin, S.SeqRun):
         order = self.ent_order()
         e = self.schema.by_name[order[a % len(order)]]
         P = self.E[e.name]
-        attrs = [x for x in e.scalars() if not x.auto]
+        attrs = [x for x in e.queryable() if not x.auto]
         at = attrs[b % len(attrs)]
         p = pool(e.name, at.name)
         val = p[c % len(p)]
@@ -1244,7 +1296,7 @@ class Interp(seq_detached.DetachedMixin, S.SeqRun):
     def op_r_get(self, a, b, c, exists=False):
         order = self.ent_order()
         e = self.schema.by_name[order[a % len(order)]]
-        attrs = [x for x in e.scalars() if not x.auto]
+        attrs = [x for x in e.queryable() if not x.auto]
         at = attrs[b % len(attrs)]
         p = pool(e.name, at.name)
         val = p[c % len(p)]
@@ -1317,7 +1369,7 @@ class Interp(seq_detached.DetachedMixin, S.SeqRun):
         order = self.ent_order()
         e = self.schema.by_name[order[a % len(order)]]
         P = self.E[e.name]
-        attrs = [x for x in e.scalars() if not x.auto]
+        attrs = [x for x in e.queryable() if not x.auto]
         at = attrs[b % len(attrs)]
         p = pool(e.name, at.name)
         val = p[c % len(p)]
@@ -1818,6 +1870,8 @@ class Interp(seq_detached.DetachedMixin, S.SeqRun):
             # (inside a ddl session SQLite's foreign keys are switched off on purpose: no ON DELETE actions there)
             if not self.knobs.get('hook_mode') and not self.cur_session_opts.get('ddl'):
                 self.op_bulk_del(a, b, c)
+        elif name == 'jedit':
+            self.op_jedit(a, b, c)
         elif name == 'partial':
             if self.knobs.get('hook_mode') not in ('modify', 'create', 'link', 'after_edit'):
                 self.op_partial(a, b, c)
